@@ -309,6 +309,9 @@ void disasm_range_cell(
       printf("%d-%d\n", cycles_min, cycles_max);
     }
 
+    // An undecodable opcode has no length: step over it instead of going backwards.
+    if (count < 1) { count = 4; }
+
     start = start + count;
   }
 }
